@@ -703,14 +703,28 @@ class Exec:
             return self.result
         if self.spec and n in ("True", "False"):
             return T.mk_bool(n == "True")
-        if self.spec and n in (self.c.locals or {}):
-            # a declared local that this path never assigned, mentioned in a clause: an arbitrary (ghost) value of its
-            # declared type, the same one throughout this run -- the clause then has to hold whatever it is
+        if self.spec and n in (self.c.locals or {}) and n in self._assigned_names():
+            # a declared local that the function assigns somewhere but not on this path, mentioned in a clause: an
+            # arbitrary (ghost) value of its declared type, the same one throughout this run -- the clause then has to
+            # hold whatever it is. (A name the function never assigns means the contract no longer matches the code,
+            # e.g. after a rename: that stays "unbound name" = UNDECIDED, never a refutation.)
             gh = self.__dict__.setdefault("_ghost_locals", {})
             if n not in gh:
                 gh[n] = T.fresh(self.c.locals[n], "unassigned." + n)
             return gh[n]
         raise Unsupported(f"unbound name {n}", node)
+
+    def _assigned_names(self):
+        an = self.__dict__.get("_assigned_cache")
+        if an is None:
+            an = set()
+            for node in ast.walk(self.f):
+                if isinstance(node, ast.Name) and isinstance(node.ctx, ast.Store):
+                    an.add(node.id)
+                elif isinstance(node, ast.arg):
+                    an.add(node.arg)
+            self._assigned_cache = an
+        return an
 
     def lift_const(self, c):
         if isinstance(c, V):
